@@ -130,6 +130,10 @@ def ensure_build(prop=None):
     return p.returncode == 0, (p.stdout + p.stderr)[-4000:]
 
 
+class Infrastructure(RuntimeError):
+    """a failure of the tooling (coqc missing, build lock, disk) as opposed to a breakdown of the correspondence"""
+
+
 def regen_sources(prop):
     """Re-translate the property's Python source units (harness/py2coq) from REPO's working tree into
     coq/theories/Gen/*.v.  Returns {unit: {source, functions, problems}} (empty when the property has none)."""
